@@ -256,6 +256,23 @@ def refine_failures():
     return [tuple(common.ustr_unescape(x) for x in f.split("|")) for f in line.split(";") if f]
 
 
+COVER_HEADER = ("From Coq Require Import List String.\n"
+                "From V Require Import Base.UString Model.SchemaTypes Gen.Tables Proofs.SchemaC02 Proofs.SchemaCovC02.\n"
+                "Import ListNotations. Open Scope string_scope.\n"
+                "Definition names (l : list ustring) : string := fold_right (fun c acc => append (show_ustr c) (append \" \" acc)) EmptyString l.\n")
+
+
+def coverage_of_theorem():
+    """How many classes of the regenerated tables the partial theorems cover (kernel-computed lists)."""
+    lines = sc.sharded_eval("c02c", COVER_HEADER, [
+        "append (show_nat (List.length lib_covered)) (append \"|\" (append (show_nat (List.length lib_covered2)) "
+        "(append \"|\" (show_nat (List.length (wclasses lib))))))",
+        "names lib_uncovered2"])
+    a, b, n = (int(x) for x in lines[0].split("|"))
+    return {"classes": n, "covered_by_strict_sound_partial": a, "covered_by_strict_sound_partial_wide": b,
+            "not_covered": common.ustr_unescape(lines[1]).split()}
+
+
 def _slot(table, cid, name):
     c = table["classes"].get(cid)
     if not c:
@@ -397,6 +414,11 @@ def check(run):
         except RuntimeError as e:
             run.broken.append(Broken("obligation", "refine_failures lib spec (evaluation)", {"error": str(e)[-1200:]}))
     run.coverage["refinement_failures"] = ["|".join(f) for f in failures]
+    if gen_ok:
+        try:
+            run.coverage["theorem_class_coverage"] = coverage_of_theorem()
+        except RuntimeError as e:
+            run.notes.append("coverage lists could not be evaluated: %s" % str(e)[-300:])
     bcases = boundary_cases(failures, live, g, run.rng) if failures and live else []
     cases += bcases
     pats = sc.pattern_lists(cases)
